@@ -445,3 +445,28 @@ def probes (p : Prog) : List (Nat × Expr) :=
     | _ => none
 
 end JediModel.PyCore
+
+namespace JediModel.PyCore
+
+/-- the names jedi offers after `obj.` for an instance (`inst = true`: `SelfAttributeFilter`s
+first) or a class of class statement `id`: `self.x` targets of `__init__`, class-body names and
+method names of the class and, recursively, of its base -/
+def complNames (p : Prog) : Nat → Bool → Nat → List Nat
+  | 0, _, _ => []
+  | fuel + 1, inst, id =>
+    match p[id]? with
+    | some (.klass _ base attrs init methods) =>
+      (if inst then (match init with
+                     | some i => i.assigns.map (·.1)
+                     | none => []) else []) ++
+      attrs.map (·.1) ++ methods.map (·.name) ++
+      (match base with
+       | none => []
+       | some b =>
+         (nameA p fuel b id).flatMap fun s =>
+           match s with
+           | .cls bid => complNames p fuel inst bid
+           | _ => [])
+    | _ => []
+
+end JediModel.PyCore
